@@ -494,3 +494,6 @@ def fixed(chk, repo):
         find("self.signed = fmt.islower()", hv, mode="stmt"))
     chk.ob("R09.6", H + "HashGlobalVar.__init__", "program side: x is "
            "fixed-point and signed", ok, hv, "fixed = fmt == 'x'")
+
+# added rules (appended to the explanation the evidence file carries)
+EXPLANATION += (" " + 'Added during the build (DESIGN.md 4.31, second table): HashMap.init on a program with two maps; TheDict.__iter__ against a model of get_next_key; hash reads by abstract execution (shared with C02); sign-extension tables of C01 shared.')
